@@ -1,0 +1,22 @@
+//go:build verif
+
+package snowflake
+
+import "time"
+
+// VerifSetNow replaces the wall clock read by HardNode.Generate and returns a
+// function restoring the previous one (verification hook).
+func VerifSetNow(fn func() time.Time) (restore func()) {
+	var old = _HookNow
+	_HookNow = fn
+	return func() { _HookNow = old }
+}
+
+// VerifSetConfig sets the package configuration directly - Setup can switch
+// node-at-lowest on but never off again - and returns a function restoring the
+// previous configuration (verification hook).
+func VerifSetConfig(epochMs int64, nodeBits uint8, nodeAtLowest bool) (restore func()) {
+	var oe, ob, ol = _epoch, _nodeBits, _nodeAtLowest
+	_epoch, _nodeBits, _nodeAtLowest = epochMs, nodeBits, nodeAtLowest
+	return func() { _epoch, _nodeBits, _nodeAtLowest = oe, ob, ol }
+}
